@@ -188,7 +188,7 @@ def _observe(nets, index):
     return obs
 
 
-def replay(plan):
+def build_and_observe(plan):
     """Run one construction plan on real objects; returns the ops with observations.
 
     plan = {"cls": [...], "n": n, "steps": [step...]}; a step is
@@ -252,7 +252,7 @@ def guarded(plan, limit=10):
     """replay under a time limit; returns ("ok", ops) | ("timeout", None) | ("raise", repr)."""
     try:
         with time_limit(limit):
-            ops = replay(plan)
+            ops = build_and_observe(plan)
             return ("ok", compress(ops) if plan.get("macro") else ops)
     except ImplTimeout:
         return ("timeout", None)
@@ -718,7 +718,7 @@ def run(ctx):
         "list within the stated constants. T2: TLC (HTNOrderEnum) emits every precedence relation incl. self-loops over "
         "0..3 subtasks with every duplicated statement and with/without a non-temporal constraint, every irreflexive "
         "relation over %s, relations plus one self-loop, and relations mixed with one constraint of another kind "
-        "(29 deviations per ordered pair: non-strict, equality, negation, start/end swapped, delays incl. 1/2, "
+        "(27 deviations per ordered pair: non-strict, equality, negation, start/end swapped, delays incl. 1/2, "
         "container None, global timepoints, numeric side); each case is built on real TaskNetwork/Method objects "
         "(call order and API entry point seeded) and the recorded partial_order()/total_order() are judged by TLC. "
         "T3: %d seeded incremental histories over <= 6 subtasks observed after every call. Non-trivial = a history "
@@ -732,3 +732,52 @@ def run(ctx):
         "partial_order() is compared as a set of pairs (order and repetitions in the returned list are not judged)",
         "conjunctions/disjunctions of temporal atoms are not generated",
     ]
+
+
+# ----------------------------------------------------------------------------------------
+# ./check C34 --replay replay/C34/<hash>.json : rebuild the recorded network on the current tree
+# ----------------------------------------------------------------------------------------
+def plan_of_trace(trace):
+    """The calls of a recorded history (a set_ordered chain is replayed pair by pair)."""
+    steps = []
+    for o in trace["ops"]:
+        look = bool(o["obs"])
+        if o["op"] == "build":
+            steps += [{"op": "task", "t": t, "look": False} for t in o["ts"]]
+            for c in o["calls"]:
+                if c["a"] != 0:
+                    steps.append({"op": "prec", "a": c["a"], "b": c["b"], "v": c["v"].lower(), "look": False})
+                else:
+                    steps.append({"op": "cons", "c": c["c"], "look": False})
+            steps.append({"op": "look", "look": True})
+        elif o["op"] == "prec":
+            steps.append({"op": "prec", "a": o["a"], "b": o["b"], "v": o["v"].lower(), "look": look})
+        elif o["op"] == "cons":
+            steps.append({"op": "cons", "c": o["c"], "look": look})
+        elif o["op"] == "task":
+            steps.append({"op": "task", "t": o["t"], "look": look})
+        else:
+            steps.append({"op": "look", "look": look})
+    cls = [ob["cls"] for o in trace["ops"] if o["obs"] for ob in o["obs"]]
+    return {"cls": sorted(set(cls), reverse=True) or ["tn"], "n": 0, "steps": steps}
+
+
+def replay(ctx, rec):
+    data = rec["data"]
+    plan = data["plan"] if "plan" in data else plan_of_trace(data["trace"])
+    status, r = guarded(plan, 60)
+    if status != "ok":
+        print("replay: %s %s" % (status, r))
+        return 1
+    for i, o in enumerate(r):
+        print("call %d: %s" % (i + 1, {k: v for k, v in o.items() if k != "obs"}))
+        for ob in o["obs"]:
+            print("    %s partial_order=%r total_order=%r" % (ob["cls"], ob["po"], ob["to"]))
+    n = max([6] + [o.get("t", 0) for o in r])
+    printed, _ = judge(ctx, "replay", [{"id": 1, "ops": r}], n, 4)
+    fails = [p for p in printed if p and p[0] == "FAIL"]
+    for p in fails:
+        print("judge: clause %s violated after call %d (observation %d)" % (p[2], p[3], p[4]))
+    if not fails:
+        print("judge: no clause violated on the current tree")
+    return 1 if fails else 0
